@@ -58,9 +58,18 @@ let () =
       let dg, strict = match degeneracy g with
         | Some (d, order) -> string_of_int (int_of_nat d), "order=" ^ ints (List.map int_of_nat order)
         | None -> "panic", "" in
+      let bk = match all_maximal_cliques g with
+        | Some l -> String.concat "/" (List.map (fun c -> ints (List.map int_of_nat c)) l)
+        | None -> "panic" in
+      let strict = strict ^ " bk=" ^ bk in
+      (* the models of CliqueNumber / IndependenceNumber must agree with the proved oracles *)
+      let w_ref = int_of_nat (clique_number_ref g) and a_ref = int_of_nat (independence_number_ref g) in
+      let strict = match clique_number_bk g, independence_number_bk g with
+        | Some w, Some a when int_of_nat w = w_ref && int_of_nat a = a_ref -> strict
+        | _ -> strict ^ " MODEL-DISAGREES-WITH-ORACLE" in
       let b = Buffer.create 256 in
       Printf.bprintf b "n=%d m=%d w=%d a=%d mc=%d:%s chi=%d kc=%s dg=%s gr=%s pr=%s" n m
-        (int_of_nat (clique_number_ref g)) (int_of_nat (independence_number_ref g))
+        w_ref a_ref
         (List.length mc) (String.concat "/" (List.map ints mc))
         (int_of_nat (chromatic_number_ref g)) kc dg (String.concat "|" (List.rev !gr)) (Buffer.contents pr);
       if level >= 1 then
